@@ -166,7 +166,7 @@ Proof.
   assert (R1' : mp4_update_parents (zlen data - 0) (splice f off 0 data) (map ma_off path) = Ok f2) by (rewrite Z.sub_0_r; exact R1).
   assert (R2' : mp4_update_offsets atoms (zlen data - 0) off f2 = Ok f') by (rewrite Z.sub_0_r; exact R2).
   pose proof (new_result f atoms H1 H2 path last rest Hip Hlast Hfirst data f2 f' R1' R2') as (Z & Fr & AGD & UA & U4 & U8 & UT).
-  pose proof (last_facts f atoms H1 path last rest Hip Hlast) as (_ & _ & _ & _ & Hoff).
+  pose proof (last_facts f atoms H1 H2 path last rest Hip Hlast Hfirst) as (_ & _ & _ & _ & Hoff).
   assert (Hd : zlen f' - zlen f = zlen data - 0) by lia.
   rewrite Hd. split; [exact Hoff|]. split; [lia|]. split; [|split; [|split; [|split; [|split]]]].
   - intros T HT. destruct (U4 T HT) as (_ & E). rewrite mv_newpos in E. exact E.
